@@ -14,6 +14,7 @@ import (
 	"runtime/debug"
 	"sort"
 	"strconv"
+	"strings"
 	"sync/atomic"
 	"time"
 	"unsafe"
@@ -65,6 +66,7 @@ var kindNames = [...]string{"start", "exit", "yield", "stamp", "choose", "lock",
 func (k kind) String() string { return kindNames[k] }
 
 type req struct {
+	n64   int64
 	t     *task
 	k     kind
 	p     unsafe.Pointer
@@ -77,6 +79,7 @@ type req struct {
 type resp struct {
 	x     interface{}
 	n     int
+	n64   int64 // clock readings (plain int is 32 bits wide on the 386 worker)
 	seq   uint64
 	abort bool
 	fail  string // the shim operation must panic with this message (e.g. unlock of unlocked mutex)
@@ -462,14 +465,14 @@ func (s *Sim) apply(t *task) resp {
 			s.res.ClockTies++
 		}
 		s.lastRd = rd
-		out.n = int(rd)
+		out.n64 = rd
 	case kSleep:
 		// the wake-up time was fixed when the request arrived; nothing to do at the grant
 	case kSpawn:
 		// a go statement of the library under test: the new goroutine is one more task of this scheduler. It is started by
 		// the launcher goroutine (which has acquired nothing from any task), parks at its first scheduling point like
 		// every task, and runs only when chosen.
-		nt := &task{id: len(s.tasks), name: fmt.Sprintf("%s.go%d", t.name, len(s.tasks)), sim: s, fn: r.x.(func()), wake: make(chan resp), spawned: true}
+		nt := &task{id: len(s.tasks), name: fmt.Sprintf("%s.go%d", strings.SplitN(t.name, ".go", 2)[0], len(s.tasks)), sim: s, fn: r.x.(func()), wake: make(chan resp), spawned: true}
 		if s.cfg.Policy == PolicyPCT {
 			nt.prio = 1 + s.ch.Intn(s.cfg.PCTDepth+1+len(s.tasks), "pctspawn")
 		}
@@ -938,7 +941,7 @@ func (s *Sim) Run() *Result {
 			s.registerCondWait(t, r.p)
 		}
 		if r.k == kSleep {
-			d := int64(r.n)
+			d := r.n64
 			if d < 0 {
 				d = 0
 			}
